@@ -260,11 +260,11 @@ theorem compBind_get (w : World) (hu : UniqueEvents w.allPorts) (p : Port) (itf 
 def bodyWorld (ir : ShellIR) (allPorts : List (Port × InterfaceD)) (gi : Option Nat) (pump runtime : Bool)
     (name : Str) (extra : Bool) : World :=
   let w := compBind { ir, allPorts, grantIndex := gi, instName := name, protoPump := pump,
-                      fac := facInfo ir.origin pump runtime extra } none
+                      fac := facInfo ir pump runtime extra } none
   { w with selectors := (ir.provides.filter (·.isMc)).map (fun p => { mv := p.target, port := p.name }) }
 
 theorem construct_ok (ir : ShellIR) (allPorts : List (Port × InterfaceD)) (gi : Option Nat) (pump runtime : Bool)
-    (name : Str) (extra : Bool) (hf : facilitiesCheck ir.origin ir.structName pump runtime = none) :
+    (name : Str) (extra : Bool) (hf : ctorCheck ir pump runtime = none) :
     construct ir allPorts gi pump runtime none name extra =
       .ok (runAssigns (bodyWorld ir allPorts gi pump runtime name extra) ir.ctorAssigns [] [] none) := by
   unfold construct
@@ -300,7 +300,7 @@ theorem get_with_selectors (w : World) (sel : List Selector) (k : RSlot) :
 
 /-- what a constructed shell's slots hold (constructor body after the component's own bindings) -/
 theorem constructed_store (ir : ShellIR) (allPorts : List (Port × InterfaceD)) (gi : Option Nat) (pump runtime : Bool)
-    (name : Str) (extra : Bool) (hf : facilitiesCheck ir.origin ir.structName pump runtime = none) :
+    (name : Str) (extra : Bool) (hf : ctorCheck ir pump runtime = none) :
     ∃ w, construct ir allPorts gi pump runtime none name extra = .ok w ∧ w.queue = [] ∧
       -- a constructor assignment is in force when every assignment to its slot assigns the same handler
       (∀ a ∈ ir.ctorAssigns, ∀ ev, findEvent (ir.provides ++ ir.requires) a.lhs = some ev → a.lhs.obj ≠ .local_ →
@@ -343,7 +343,7 @@ theorem constructed_store (ir : ShellIR) (allPorts : List (Port × InterfaceD)) 
     the arguments intact and in order, and the component's reply and out/inout values come back -/
 theorem constructed_forwards_in_event (ir : ShellIR) (allPorts : List (Port × InterfaceD)) (gi : Option Nat)
     (pump runtime : Bool) (name : Str) (extra : Bool) (n : Nat)
-    (hf : facilitiesCheck ir.origin ir.structName pump runtime = none)
+    (hf : ctorCheck ir pump runtime = none)
     (hu : UniqueEvents allPorts)
     (p : Port) (itf : InterfaceD) (ev : Event) (hp : (p, itf) ∈ allPorts) (hev : ev ∈ itf.events)
     (hdir : p.dir = .provides) (hin : evDirOf ev = .in_)
@@ -646,7 +646,7 @@ theorem generated_forwards_in_event (fc : FC) (sn : Str) (fac : Facilities) (pp 
     (allPorts : List (Port × InterfaceD)) (hpa : (p.dzn.port, p.dzn.itf) ∈ allPorts) (hu : UniqueEvents allPorts)
     (hdir : p.dzn.port.dir = .provides)
     (gi : Option Nat) (pump runtime : Bool) (name : Str) (extra : Bool) (n : Nat)
-    (hf : facilitiesCheck ir.origin ir.structName pump runtime = none)
+    (hf : ctorCheck ir pump runtime = none)
     (args : List Val) (hlen : ev.formals.length = args.length) :
     ∃ w ps, construct ir allPorts gi pump runtime none name extra = .ok w ∧
       ps.map (·.name) = ev.formals.map (·.name) ∧
@@ -770,7 +770,7 @@ theorem generated_forwards_requires_out (fc : FC) (sn : Str) (fac : Facilities) 
     (allPorts : List (Port × InterfaceD)) (hpa : (p.dzn.port, p.dzn.itf) ∈ allPorts) (hu : UniqueEvents allPorts)
     (hdir : p.dzn.port.dir = .requires)
     (gi : Option Nat) (pump runtime : Bool) (name : Str) (extra : Bool) (n : Nat)
-    (hf : facilitiesCheck ir.origin ir.structName pump runtime = none)
+    (hf : ctorCheck ir pump runtime = none)
     (args : List Val) (hlen : ev.formals.length = args.length) :
     ∃ w, construct ir allPorts gi pump runtime none name extra = .ok w ∧
       let w1 : World := { w with posted := w.posted + 1, pumpTouched := true,
@@ -886,7 +886,7 @@ theorem generated_forwards_provides_out (fc : FC) (sn : Str) (fac : Facilities) 
     (hevu : ∀ e ∈ p.dzn.itf.events, e.name = ev.name → evDirOf e = .out → e = ev)
     (allPorts : List (Port × InterfaceD))
     (gi : Option Nat) (pump runtime : Bool) (name : Str) (extra : Bool) (n : Nat)
-    (hf : facilitiesCheck ir.origin ir.structName pump runtime = none)
+    (hf : ctorCheck ir pump runtime = none)
     (args : List Val) :
     ∃ w, construct ir allPorts gi pump runtime none name extra = .ok w ∧
       let w' := w.set ⟨.bnd p.target, .out, ev.name⟩ (.scripted .env p.name ev)     -- the user's binding
@@ -1129,7 +1129,7 @@ theorem build_forwards_in_event (fc : FC) (cfg : Config) (b : BuildResult) (h : 
     (hfn : (ev.formals.map (·.name)).Nodup)
     (hu : UniqueEvents b.allPorts)
     (pump runtime : Bool) (name : Str) (extra : Bool) (n : Nat)
-    (hf : facilitiesCheck b.ir.origin b.ir.structName pump runtime = none)
+    (hf : ctorCheck b.ir pump runtime = none)
     (args : List Val) (hlen : ev.formals.length = args.length) :
     ∃ w ps, construct b.ir b.allPorts b.grantIndex pump runtime none name extra = .ok w ∧
       ps.map (·.name) = ev.formals.map (·.name) ∧
@@ -1187,7 +1187,7 @@ theorem build_forwards_requires_out (fc : FC) (cfg : Config) (b : BuildResult) (
     (hfn : (ev.formals.map (·.name)).Nodup) (hallin : ∀ f ∈ ev.formals, f.dir = .in_)
     (hu : UniqueEvents b.allPorts)
     (pump runtime : Bool) (name : Str) (extra : Bool) (n : Nat)
-    (hf : facilitiesCheck b.ir.origin b.ir.structName pump runtime = none)
+    (hf : ctorCheck b.ir pump runtime = none)
     (args : List Val) (hlen : ev.formals.length = args.length) :
     ∃ w, construct b.ir b.allPorts b.grantIndex pump runtime none name extra = .ok w ∧
       let w1 : World := { w with posted := w.posted + 1, pumpTouched := true,
@@ -1215,7 +1215,7 @@ theorem build_forwards_provides_out (fc : FC) (cfg : Config) (b : BuildResult) (
     (hninj : ∀ q ∈ b.ir.provides ++ b.ir.requires, q.name = p.name → q = p)
     (hevu : ∀ e ∈ p.dzn.itf.events, e.name = ev.name → evDirOf e = .out → e = ev)
     (pump runtime : Bool) (name : Str) (extra : Bool) (n : Nat)
-    (hf : facilitiesCheck b.ir.origin b.ir.structName pump runtime = none)
+    (hf : ctorCheck b.ir pump runtime = none)
     (args : List Val) :
     ∃ w, construct b.ir b.allPorts b.grantIndex pump runtime none name extra = .ok w ∧
       let w' := w.set ⟨.bnd p.target, .out, ev.name⟩ (.scripted .env p.name ev)
